@@ -15,7 +15,8 @@ EXTENDS Alloc
 
 (* A service spec:                                                         *)
 (*  [type "LB"|"CIP", fam, pol, v6first, cips (cluster IPs valid),          *)
-(*   share, ports, etp "Cluster"|"Local", sel, reqIPs (seq), reqPool]       *)
+(*   share, ports, etp "Cluster"|"Local", sel, reqIPs (seq), reqPool,       *)
+(*   bad (spec.loadBalancerIP is not a parsable address), dep, legacy]      *)
 
 BackendKey(sp) == IF sp.etp = "Local" THEN sp.sel ELSE ""
 ReqOf(sp) == [ports |-> sp.ports, sk |-> sp.share, bk |-> BackendKey(sp),
@@ -52,7 +53,8 @@ Cleared(al, s) == [al |-> UnassignRes(al, s), status |-> <<>>, ann |-> ""]
 (* allocateIPs on a cleared service: set of [ok, al, ips]                   *)
 AllocateIPs(L, al, s, sp) ==
   LET r == ReqOf(sp) IN
-  IF sp.reqIPs # <<>> THEN
+  IF sp.bad THEN {[ok |-> FALSE, al |-> al, ips |-> <<>>]}     \* unparsable requested address
+  ELSE IF sp.reqIPs # <<>> THEN
      IF SeqFam(sp.reqIPs) = "unknown" \/ SeqFam(sp.reqIPs) # sp.fam THEN {[ok |-> FALSE, al |-> al, ips |-> <<>>]}
      ELSE LET ar == AssignRes(L, al, s, sp.reqIPs, r) IN
           IF ~ar.ok THEN {[ok |-> FALSE, al |-> al, ips |-> <<>>]}
@@ -90,7 +92,7 @@ Converge(L, al, s, o) ==
         c3 == IF c2.lb # <<>> /\ sp.reqPool # "" /\ c2.al[s].pool # sp.reqPool
               THEN [al |-> UnassignRes(c2.al, s), status |-> <<>>, ann |-> "", lb |-> <<>>]
               ELSE c2
-        badReq == sp.reqIPs # <<>> /\ SeqFam(sp.reqIPs) = "unknown"
+        badReq == sp.bad \/ (sp.reqIPs # <<>> /\ SeqFam(sp.reqIPs) = "unknown")
         (* c4: different addresses were requested (the comparison sorts lb in place) *)
         c4 == IF c3.lb # <<>> /\ sp.reqIPs # <<>> /\ ~badReq
               THEN IF SortIPs(c3.lb) = SortIPs(sp.reqIPs)
@@ -131,7 +133,7 @@ Handle(L, al, s, o) ==
          res1 == IF AllocKey(al, s) # AllocKey(c.al, s) THEN "ReprocessAll" ELSE res0
          changed == c.status # o.status \/ c.ann # o.ann
          gaveUp == IF c.al[s] = NULL THEN TRUE ELSE ~(Range(prevIPs) \subseteq Range(c.al[s].ips))
-         res2 == IF changed /\ prevIPs # <<>> /\ gaveUp /\ PoolsFor(L, Range(prevIPs)) # {}
+         res2 == IF prevIPs # <<>> /\ gaveUp /\ PoolsFor(L, Range(prevIPs)) # {}
                  THEN "ReprocessAll" ELSE res1
      IN [al |-> c.al, res |-> res2, write |-> changed, status |-> c.status, ann |-> c.ann]
      : c \in Converge(L, al, s, o) }
